@@ -136,7 +136,7 @@ func c12RetxCases(r *c12Rand, emit func(c12Case)) {
 	emit(c12RetxCase(r, -1, true))
 	n := 5
 	if c12Thorough() {
-		n = 59
+		n = 29
 	}
 	for i := 0; i < n; i++ {
 		emit(c12RetxCase(r, i, false))
